@@ -123,6 +123,13 @@ class BinaryCarver(BaseCarver):
             len(y_values) == 2
         ), " - [BinaryCarver] y must be a binary Series (int or float, not object)"
 
+        # binary target of the dev sample, checking values
+        if y_dev is not None:
+            y_dev_values = unique(y_dev)
+            assert (
+                (0 in y_dev_values) & (1 in y_dev_values) & (len(y_dev_values) == 2)
+            ), " - [BinaryCarver] y_dev must be a binary Series (int or float, not object)"
+
         return x_copy, x_dev_copy
 
     def _aggregator(
